@@ -301,6 +301,20 @@ def gen_volume(rng, label, total, first_free, maxfiles, origin=0, cat_at=0, nfil
         load = rng.weighted([(2, 0x1900), (2, 0x31900 | 0x20000), (3, rng.below(1 << 18))])
         ex = rng.weighted([(2, 0x8023), (2, 0x3FFFF), (3, rng.below(1 << 18))])
         files.append(FileEnt(d, name, rng.chance(0.3), load & 0x3FFFF, ex & 0x3FFFF, length, start))
+    if frag_split and rng.chance(0.35):
+        # a file whose start sector has low byte 2 (258, 514, 770): legal, and the spot where a reader that
+        # looks only at the low byte would confuse it with the Watford marker sector
+        cands = [x for x in (258, 514, 770) if x + 2 < total]
+        if cands:
+            S = rng.choice(cands)
+            nsec = rng.randint(1, 2)
+            files = [f for f in files if f.length == 0 and not (S <= f.start < S + nsec) or f.length and (f.last() < S or f.start >= S + nsec)]
+            if len(files) < 62:
+                d0, n0 = gen_names(rng, 1)[0]
+                while any((f.dir, f.name.upper()) == (d0, n0.upper()) for f in files):
+                    d0, n0 = gen_names(rng, 1)[0]
+                files.append(FileEnt(d0, n0, False, 0x1900, 0x8023, nsec * 256 - rng.choice([0, 3]), S))
+                files.sort(key=lambda f: -f.start)
     if frag_split:
         # Watford: distribute over the two catalogue halves; each half holds <=31 and is
         # itself in descending start order (a subsequence of a sorted list is sorted)
